@@ -5,8 +5,8 @@ package main
 // requirement to the callers of the enclosing function, up to the API entries.
 
 import (
-	"os"
 	"fmt"
+	"os"
 	"sort"
 	"strings"
 )
@@ -34,6 +34,8 @@ type Demand struct {
 	ExemptCall func(cs *Site, g *Formula) *Formula
 	// UseSticky: admission facts established earlier on the path count even if later invalidated
 	UseSticky bool
+	// assumeSenderNotOwn: set while relating an own-slot atom that splitOwnSlot has guarded with "or the sender is me"
+	assumeSenderNotOwn bool
 }
 
 func (a *Analysis) newDemand(roots []*FuncInfo) *Demand {
@@ -89,7 +91,7 @@ func (d *Demand) modeFor(killed map[string]int, facts *Facts) func(a *Atom) int 
 				// a store into a sender's slot leaves the own slot alone only if the sender is not this node. It can be:
 				// a node that lost its state is handed its own payloads back by a recovery message. The path must know
 				// better — every sender index it equates with something is known to differ from MyIndex
-				if senderIsNotOwn(facts) {
+				if senderIsNotOwn(facts) || d.assumeSenderNotOwn {
 					rem &^= KillNNSender
 				}
 			case "sender":
@@ -181,7 +183,22 @@ func (d *Demand) proveSnap(site *Site, sn *Snap, g *Formula, depth int) *Failure
 			}
 		}
 	}
-	r, cex := residual(g, facts, d.modeFor(sn.Killed, facts))
+	// the own slot across a store into a sender's slot: T[me] keeps its value unless the sender is this node — and if it
+	// is, the slot is non-nil afterwards. When the path does not know which, say so in the requirement itself:
+	// nn(T[me]) becomes nn(T[me]) ∨ me == sender, and the atom is then related to the entry as in the "not me" case
+	g, notOwn := d.splitOwnSlot(g, sn.Killed, facts)
+	mode := d.modeFor(sn.Killed, facts)
+	if notOwn {
+		inner := mode
+		d.assumeSenderNotOwn = true
+		mode = func(a *Atom) int {
+			d.assumeSenderNotOwn = true
+			defer func() { d.assumeSenderNotOwn = false }()
+			return inner(a)
+		}
+		d.assumeSenderNotOwn = false
+	}
+	r, cex := residual(g, facts, mode)
 	lab := d.siteLabel(site)
 	if os.Getenv("DBFTLINT_DEBUG_DEMAND") != "" && strings.Contains(lab, os.Getenv("DBFTLINT_DEBUG_DEMAND")) {
 		fmt.Printf("DEMAND %s depth=%d\n   g=%s\n   r=%s\n   killed=%v notOwn=%v\n", lab, depth, g.String(), r.String(), sn.Killed, senderIsNotOwn(facts))
@@ -329,7 +346,6 @@ func substTerm(t *Term, sub map[string]*Term) *Term {
 	return nt
 }
 
-
 // senderIsNotOwn: the facts tie the index of the received payload(s) to a term that is known to differ from MyIndex
 // (e.g. sender == PrimaryIndex and MyIndex != PrimaryIndex), or say directly that it differs.
 func senderIsNotOwn(f *Facts) bool {
@@ -368,4 +384,72 @@ func senderIsNotOwn(f *Facts) bool {
 		}
 	}
 	return found
+}
+
+// splitOwnSlot rewrites own-slot atoms of g whose table was stored into at a sender's index on the way (see proveSnap).
+// The sender is named by what the path equates it with (the primary index, say), so that the new atom can meet the
+// requirement's own literals about this node's role.
+func (d *Demand) splitOwnSlot(g *Formula, killed map[string]int, facts *Facts) (*Formula, bool) {
+	if senderIsNotOwn(facts) {
+		return g, false
+	}
+	// who sent it: a unique sender-class term of the path, and what the path says it equals
+	var sender, same *Term
+	for k, v := range facts.m {
+		a := facts.atoms[k]
+		if a == nil || a.Op != "eq" || a.A == nil || a.B == nil {
+			continue
+		}
+		var s, o *Term
+		switch {
+		case idxClass(a.A, nil) == "sender":
+			s, o = a.A, a.B
+		case idxClass(a.B, nil) == "sender":
+			s, o = a.B, a.A
+		default:
+			continue
+		}
+		if sender != nil && sender.S != s.S {
+			return g, false
+		}
+		sender = s
+		if o.S == tMyIndex.S {
+			return g, false // the path already knows
+		}
+		if v && !o.isConst() && !hasLocalTerm(o) && (same == nil || o.S < same.S) {
+			same = o
+		}
+	}
+	if sender == nil {
+		return g, false
+	}
+	who := sender
+	if same != nil {
+		who = same
+	}
+	isMe := mkAtom("eq", tMyIndex, who)
+	if _, known := facts.value(isMe); known {
+		return g, false
+	}
+	changed := false
+	out := g.mapAtomsPol(true, func(a *Atom, pos bool) *Formula {
+		if a.Op != "nn" || a.A.K != KIndex || len(a.A.Args) != 2 || a.A.Args[0].K != KField || idxClass(a.A.Args[1], nil) != "own" {
+			return fAtom(a)
+		}
+		k := killed[a.A.Args[0].Name]
+		if k&KillNNSender == 0 || k&(KillAny|KillNNOther) != 0 {
+			return fAtom(a)
+		}
+		// "the slot is non-nil if the sender is me" holds only if nothing may have emptied a slot on the way (the
+		// kill set is unordered); asked for the slot to be empty, "and the sender is not me" only strengthens
+		if pos && k&^(KillNNSender|KillNNOwn|KillStable) != 0 {
+			return fAtom(a)
+		}
+		changed = true
+		return fOr(fAtom(a), fAtom(isMe))
+	})
+	if !changed {
+		return g, false
+	}
+	return out, true
 }
